@@ -249,6 +249,8 @@ impl Out {
     pub fn put(&mut self, v: &Value) {
         serde_json::to_writer(&mut self.w, v).unwrap();
         self.w.write_all(b"\n").unwrap();
+        // flushed per record: if the watchdog has to kill the process, the file ends with a complete line
+        self.w.flush().unwrap();
         self.n += 1;
     }
     pub fn flush(&mut self) {
